@@ -22,7 +22,7 @@ MergeTouchingBlocks(bs) ==
   ELSE <<bs[1]>> \o MergeTouchingBlocks(Tail(bs))
 (* ["twin", exons, cds|EMPTY, frames, R, ws, we, route, ctor,
     sameDict, sameGuid, chromLoc, chunkLocBack, spliced,
-    numCodons, chromCodons, chunkCodonsBack, numChunkCodons, cdsSeq, protein] *)
+    numCodons, chromCodons, chunkCodonsBack, numChunkCodons, cdsSeq, protein, chunkFrames, chunkOnMinus, sizes] *)
 VTwin(ev) ==
   LET ex == ev[2] cdsl == ev[3] fr == ev[4] R == ev[5] ws == ev[6] we == ev[7] st == St(ex)
       inside == InWindowBases(ex, ws, we) coding == ~IsEmptyLoc(cdsl) IN
@@ -46,6 +46,14 @@ VTwin(ev) ==
     ELSE Ok(IsVal(ev[13]) /\ ~IsEmptyLoc(ev[13][2]) /\ Bases(ev[13][2]) = inside /\ St(ev[13][2]) = st, "chunk-location-lifts-back"),
     IF inside = <<>> THEN Ok(Rejected(ev[14]) \/ (IsVal(ev[14]) /\ ev[14][2] = <<>>), "outside-chunk-sequence")
     ELSE Ok(IsVal(ev[14]) /\ ev[14][2] = CharsOf(inside, st = "-", R), "chunk-sequence-is-substring"),
+    \* optional field 23 = <<len, chunk_relative_size>> (\o <<cds_size, chunk_relative_cds_size>> for a transcript): the
+    \* chromosome-level sizes do not shrink, the chunk-relative ones count the bases (of the CDS) lying on the chunk
+    IF Len(ev) < 23 THEN "ok"
+    ELSE LET sz == ev[23]
+             cb == IF coding THEN Bases(cdsl) ELSE <<>> IN
+         Ok(IsVal(sz) /\ sz[2][1] = Len(Bases(ex)) /\ sz[2][2] = Len(inside)
+            /\ (Len(sz[2]) = 2 \/ (sz[2][3] = Len(cb)
+                                   /\ sz[2][4] = Len(SelectSeq(cb, LAMBDA p : ws <= p /\ p < we)))), "sizes"),
     IF ~coding THEN "ok" ELSE
     LET cds == <<cdsl, fr>> n == NumCodons(cds) want == WindowCodons(cds, ws, we)
         allb == Bases(cdsl) insb == SelectSeq(allb, LAMBDA p : ws <= p /\ p < we)
